@@ -296,10 +296,11 @@ theorem any_listed_cases {c : Checker} {r : Rcd} {fs : FS} {deps : List Path}
   · left; rw [List.any_eq_true]; exact ⟨p, hp, h⟩
   · right; exact notInPrev_depsChanged hp h
 
-theorem getlog_agrees_iff (c : Checker) (d : TaskDef) (r : Rcd) (fs : FS) (resOf : Name → Option Res)
+/-- the tree before the `fix:` commit e6acbba: the two statuses differed exactly in `logDisagree` -/
+theorem pinned_getlog_agrees_iff (c : Checker) (d : TaskDef) (r : Rcd) (fs : FS) (resOf : Name → Option Res)
     (hnc : d.deps.any (depIs .crash c r fs) = false) :
-    logStatus c d r fs resOf = statusOf true c d r fs resOf ↔ logDisagree c d r fs resOf = false := by
-  unfold logStatus statusOf fileVerdict logDisagree logRcd
+    logStatusPinned c d r fs resOf = statusOf true c d r fs resOf ↔ logDisagree c d r fs resOf = false := by
+  unfold logStatusPinned statusOf fileVerdict logDisagree logRcd
   cases hcc : checkerChanged c r with
   | true =>
     simp only [if_true, Bool.or_true, Bool.true_or, depRaises_empty, hnc]
@@ -317,11 +318,26 @@ theorem getlog_agrees_iff (c : Checker) (d : TaskDef) (r : Rcd) (fs : FS) (resOf
     cases d.deps.any (depMissing fs) <;>
     cases Mo <;> cases L <;> cases DC <;> simp_all
 
-theorem getlog_agrees_of_present (c : Checker) (d : TaskDef) (r : Rcd) (fs : FS) (resOf : Name → Option Res)
-    (hnc : d.deps.any (depIs .crash c r fs) = false) (hpres : d.deps.any (depMissing fs) = false) :
+/-- **the present tree**: without a saved state of the wrong shape, `get_status(get_log=True).status` *is*
+    `get_status(get_log=False).status` -/
+theorem getlog_agrees (c : Checker) (d : TaskDef) (r : Rcd) (fs : FS) (resOf : Name → Option Res)
+    (hnc : d.deps.any (depIs .crash c r fs) = false) :
     logStatus c d r fs resOf = statusOf true c d r fs resOf := by
-  rw [getlog_agrees_iff c d r fs resOf hnc]
-  simp [logDisagree, hpres]
+  unfold logStatus statusOf fileVerdict logRcd
+  cases hcc : checkerChanged c r with
+  | true =>
+    simp only [if_true, Bool.or_true, depRaises_empty, Bool.false_eq_true, if_false]
+    cases earlyRun d r.getValues resOf fs <;> simp
+  | false =>
+    have h1 := @any_listed_of_modified c r fs d.deps
+    have h2 := @any_listed_cases c r fs d.deps
+    simp only [Bool.false_eq_true, if_false, Bool.or_false, hnc, any_depRaises_false hnc]
+    generalize d.deps.any (depIs .modified c r fs) = Mo at h1 h2 ⊢
+    generalize d.deps.any (depListed c r fs) = L at h1 h2 ⊢
+    generalize depsChanged true r d.deps = DC at h2 ⊢
+    cases earlyRun d r.getValues resOf fs <;>
+    cases d.deps.any (depMissing fs) <;>
+    cases Mo <;> cases L <;> cases DC <;> simp_all
 
 /-- `doit info` and `doit run` agree on which tasks are up-to-date, in every state (whatever is saved) -/
 theorem logStatus_upToDate_iff (c : Checker) (d : TaskDef) (r : Rcd) (fs : FS) (resOf : Name → Option Res) :
@@ -329,10 +345,9 @@ theorem logStatus_upToDate_iff (c : Checker) (d : TaskDef) (r : Rcd) (fs : FS) (
   unfold logStatus statusOf fileVerdict logRcd
   cases hcc : checkerChanged c r with
   | true =>
-    simp only [if_true, Bool.or_true, Bool.true_or]
+    simp only [if_true, Bool.or_true]
     cases earlyRun d r.getValues resOf fs <;>
-    cases d.deps.any (depMissing fs) <;>
-    cases d.deps.any (depRaises c Rcd.empty fs) <;> cases d.deps.any (depListed c Rcd.empty fs) <;> simp
+    cases d.deps.any (depRaises c Rcd.empty fs) <;> simp
   | false =>
     have h1 := @any_listed_of_modified c r fs d.deps
     have h2 := @any_listed_cases c r fs d.deps
@@ -404,7 +419,7 @@ theorem reasons_isEmpty_iff (c : Checker) (d : TaskDef) (r : Rcd) (fs : FS) (res
   cases hdc : depsChanged true (logRcd c r) d.deps with
   | true =>
     have := depsChanged_lists (logRcd c r) d.deps hdc
-    simp only [if_true, Bool.or_true]
+    simp only [Bool.or_true, if_true]
     constructor
     · intro h
       simp only [Bool.and_eq_true] at h
@@ -419,7 +434,7 @@ theorem reasons_isEmpty_iff (c : Checker) (d : TaskDef) (r : Rcd) (fs : FS) (res
         · cases h
         · cases h
   | false =>
-    simp only [Bool.false_eq_true, if_false, Bool.or_false, List.isEmpty_nil, Bool.and_true, earlyRun]
+    simp only [Bool.or_false, List.isEmpty_nil, Bool.and_true, earlyRun]
     cases d.deps.any (depListed c (logRcd c r) fs) <;>
     cases d.deps.any (depMissing fs) <;>
     cases utdFalse r.getValues resOf d.uptodate <;>
